@@ -50,10 +50,9 @@ def run(ctx):
     ctx.validate_traces("Walk", base, nsh, CONSTS, "C18", head=HEAD, workers=1, parallel=16)
     # confirm trace candidates in batch, model candidates individually
     traceCands = list(ctx.candidates)
-    oks = tracefam.batch_confirmer(ctx, "Walk", regen, CONSTS, HEAD)(traceCands) if traceCands else []
-    confirmedTrace = [c for c, ok in zip(traceCands, oks) if ok]
+    confirmedTrace = ctx.keep_confirmed_batch(traceCands, tracefam.batch_confirmer(ctx, "Walk", regen, CONSTS, HEAD))
     conf = confirm_with(ctx, "walk")
-    ctx.candidates = [c for c in modelCands if conf(c)] + confirmedTrace
+    ctx.candidates = ctx.keep_confirmed(modelCands, conf) + confirmedTrace
     ctx.exhaustive = True
     ctx.rule = ("model: all ordered trees <= 4 (quick) / 5 (thorough) nodes x typings x prune sets x abort points x nil callbacks x virtual root, each "
                 "replayed on the real Walk through custom child functions; real trees: root blocks of spec examples and seeded mixed inputs with 2 seeded "
